@@ -341,7 +341,7 @@ def run(ctx):
                ('readline', -1), ('readline', 1), ('readline', 2), ('readlines', -1), ('readlines', 2), ('endsub',)]
     hists = [([p] if p else []) + [t] for p in position for t in target]
     datas = [bytes(t) for n in range(0, maxdata + 1) for t in itertools.product(alpha, repeat=n)]
-    every = ctx.pick(16, 1)
+    every = ctx.pick(16, 3)
     k = ctx.rng.randrange(every)
     for data in datas:
         for cs in (1, 2, 3):
@@ -366,7 +366,7 @@ def run(ctx):
     # ---- leg B2: seeded random beyond the bound ---------------------------------------------
     # data is assembled from delimiter occurrences, delimiter prefixes/suffixes and filler, so that
     # delimiters straddle source-chunk and buffer boundaries often
-    nrand = ctx.pick(30000, 600000)
+    nrand = ctx.pick(30000, 250000)
     rng = ctx.rng
     all_delims = [bytes([A]), bytes([LF]), bytes([A, B]), bytes([B, LF]), bytes([A, B, A]), bytes([A, B, X]),
                   bytes([A, A, B, LF])]
